@@ -687,6 +687,46 @@ pub fn directed() -> Vec<Doc> {
                     }
                 }
             }
+            // a one-byte count or tag of one structure together with a one-byte index of another
+            // structure (a count in one table bounds an index kept in another): values around the
+            // lengths of the short fixed tables
+            if aseed == aseeds[0] {
+                let prefix_of = |n: &str| n.rfind('.').map(|p| n[..p].to_string()).unwrap_or_default();
+                let ones: Vec<&Field> = fields.iter().filter(|f| f.width == 1 && f.name.contains('.')).collect();
+                let mut budget = 30_000usize;
+                for f1 in &ones {
+                    for f2 in &ones {
+                        if f1.off == f2.off || prefix_of(&f1.name) == prefix_of(&f2.name) {
+                            continue;
+                        }
+                        for (v1, v2) in [(4u64, 3u64), (5, 4), (9, 8), (17, 16), (255, 3), (255, 254)] {
+                            if budget == 0 {
+                                continue;
+                            }
+                            budget -= 1;
+                            adoc(
+                                vec![
+                                    Damage::Field { name: f1.name.clone(), off: f1.off, width: 1, be: f1.be, value: v1 },
+                                    Damage::Field { name: f2.name.clone(), off: f2.off, width: 1, be: f2.be, value: v2 },
+                                ],
+                                &mut out,
+                            );
+                        }
+                    }
+                }
+            }
+            // text and tables carry bytes that mean something to the reader behind them (string
+            // terminator, the start and end marks of an embedded macro, the all-ones filler): each
+            // of them at every position of a small object
+            if aseed == aseeds[0] && bytes.len() <= 4096 {
+                for off in 0..bytes.len() {
+                    for v in [0x00u8, 0x02, 0x03, 0xFF] {
+                        if bytes[off] != v {
+                            adoc(vec![Damage::SetByte { off, value: v }], &mut out);
+                        }
+                    }
+                }
+            }
             for f in &fields {
                 let orig = damage::read_field(&bytes, f);
                 for v in damage::field_values(orig, f.width) {
